@@ -384,7 +384,7 @@ ImportAux(tbl, r1, r2) ==
   [used |-> {PathText(x) : x \in {Resolve(tbl, r1), Resolve(tbl, r2)} \ {Cur}},
    table |-> tbl, r1 |-> ImportText(r1), r2 |-> ImportText(r2)]
 ImportTriples(zz) ==
-  {t \in TableSeqs(IF Family = "importsq" THEN 1 ELSE 2) \X RefImports \X RefImports :
+  {t \in TableSeqs(IF Family \in {"importsq", "importsv"} THEN 1 ELSE 2) \X RefImports \X RefImports :
       /\ TableWellFormed(t[1]) /\ Exists(t[1], t[2]) /\ Exists(t[1], t[3])
       /\ (TRUE => t[3] \in {t[2], INone, IDot, IPath(<<"a", "q">>, FALSE), IPath(<<"probe.test", "fx">>, TRUE), IPath(<<"probe.test", "x", "p">>, FALSE), IPath(<<"ab.test", "p">>, TRUE)})}
 ImportQuads(zz) == {<<t[1], t[2], t[3], "typed">> : t \in ImportTriples(0)}
@@ -430,9 +430,12 @@ FileSets ==
     [] Family = "scope2m" -> {<<c, ReopenAll(c)>> : c \in ScopeCfgs({"s1", "s2"})}
     [] Family = "todom" -> {<<c, ReopenAll(c)>> : c \in {x \in TodoCfgs(0) : IsTodo(x.services["s1"]) \/ IsTodo(x.services["s2"])}}
     [] OTHER -> {<<c>> : c \in Configs}
-IsImports == Family \in {"imports", "importsq"}
+IsImports == Family \in {"imports", "importsq", "importsv"}
+(* the multi-file and quoted-target variants belong to C14 (importsv = importsq + variants; imports has them too); the quick  *)
+(* tiers of C01 / C17 / C08 compile the plain importsq family                                                              *)
+ImportVariants == Family \in {"imports", "importsv"}
 
-Scripted == Family \in {"ext", "build", "tags", "tagsq", "api", "apiq", "lits", "forms", "imports", "importsq"}
+Scripted == Family \in {"ext", "build", "tags", "tagsq", "api", "apiq", "lits", "forms", "imports", "importsq", "importsv"}
 Script == IF Family = "ext" THEN ExtCases[aux.idx].ops
           ELSE IF Family = "build" THEN BuildScript
           ELSE IF Family \in {"api", "apiq"} THEN (IF APIAccepted(cfg0) THEN ApiScript(cfg0) ELSE <<>>)
@@ -460,8 +463,8 @@ Init ==
           /\ hist = <<>> /\ aux = [idx |-> i]
   ELSE IF IsImports
   THEN \E t \in ImportQuads(0), shadowed \in BOOLEAN, quoted \in BOOLEAN :
-          /\ shadowed => (Len(t[1]) >= 1 /\ t[4] = "typed")
-          /\ quoted => (Len(t[1]) >= 1 /\ t[4] = "typed" /\ t[2] = t[3] /\ ~shadowed)
+          /\ shadowed => (ImportVariants /\ Len(t[1]) >= 1 /\ t[4] = "typed")
+          /\ quoted => (ImportVariants /\ Len(t[1]) >= 1 /\ t[4] = "typed" /\ t[2] = t[3] /\ ~shadowed)
           /\ files0 = (IF shadowed THEN <<ShadowFile(t[1])>> ELSE <<>>)
                        \o <<(IF quoted THEN QuoteTargets(ImportCfg(t[1], t[2], t[3], t[4])) ELSE ImportCfg(t[1], t[2], t[3], t[4]))>>
           /\ cfg0 = MergeAll(files0)
